@@ -65,8 +65,8 @@ Qed.
 
 Lemma drain_rel own s si :
   vrel own s si -> has_body si = true ->
-  Forall (foot own s) (rd si FBody ++ [Wr (pv si FBody) (VBody "")]) /\
-  vrel own s {| pv := pv si; px := vset (px si) FBody (VBody "") |}.
+  Forall (foot own s) (rd si FBody ++ [Wr (pv si FBody) VClosed]) /\
+  vrel own s {| pv := pv si; px := vset (px si) FBody VClosed |}.
 Proof.
   intros H Hb. split.
   - apply Forall_app. split; [apply rd_foot; auto|]. constructor; [|constructor]. apply wr_foot; auto.
@@ -100,9 +100,9 @@ Proof.
   intros H. unfold gql_stage.
   set (src := match g_kind g with
               | GQuery => (rd si FStruct ++ rd si FPar)%list
-              | GMutation => (rd si FStruct ++ (if has_body si then rd si FBody ++ [Wr (pv si FBody) (VBody "")] else []))%list end).
+              | GMutation => (rd si FStruct ++ (if has_body si then rd si FBody ++ [Wr (pv si FBody) VClosed] else []))%list end).
   set (s0 := match g_kind g with
-             | GMutation => if has_body si then {| pv := pv si; px := vset (px si) FBody (VBody "") |} else si
+             | GMutation => if has_body si then {| pv := pv si; px := vset (px si) FBody VClosed |} else si
              | GQuery => si end).
   assert (Hsrc : Forall (foot own s) src /\ vrel own s s0).
   { subst src s0. destruct (g_kind g).
@@ -517,14 +517,14 @@ Lemma init_typed q : typed (init_pst q).
 Proof. intros f. reflexivity. Qed.
 
 Theorem all_configs_gen ls cfg q :
-  in_scope cfg q = true -> race_free obj_eqb (endpoint_prog_gen ls cfg q) = true.
+  in_scope_basic cfg q = true -> race_free obj_eqb (endpoint_prog_gen ls cfg q) = true.
 Proof.
   intros Hsc. unfold endpoint_prog_gen.
   destruct cfg as [|b [|b' r]]; [reflexivity| |].
   - apply (branch_ok ls 0 WEnd b (init_pst q)); [apply init_typed|intros; discriminate|intros; discriminate].
   - apply (merge_ok ls (has_unsafe (b :: b' :: r)) (b :: b' :: r) 0 (init_pst q)); [apply init_typed|intros f; reflexivity|].
-    intros Hd. unfold in_scope in Hsc. unfold has_body. cbn. destruct (q_body q); [congruence|reflexivity].
+    intros Hd. unfold in_scope_basic in Hsc. unfold has_body. cbn. destruct (q_body q); [congruence|reflexivity].
 Qed.
 
-Theorem all_configs cfg q : in_scope cfg q = true -> race_free_b cfg q = true.
+Theorem all_configs_basic cfg q : in_scope_basic cfg q = true -> race_free_b cfg q = true.
 Proof. apply all_configs_gen. Qed.
